@@ -823,3 +823,89 @@ func init() {
 		},
 	})
 }
+
+func init() {
+	register(&Rule{
+		Name:  "LOCS-FLAG-AGREE",
+		Floor: 2,
+		Doc:   "the has-locations bit a writer stores with a posting's frequency (second argument of encodeFreqHasLocs) is the very condition under which that posting's location entries (byte-count prefix and locations) are added to the location stream: the reader consumes location entries exactly for the postings whose bit is set",
+		Run: func(c *Ctx, scope string, r *Report) {
+			for _, fn := range c.fnsCalling("encodeFreqHasLocs") {
+				for _, enc := range callsOf(fn, "encodeFreqHasLocs") {
+					key := fnName(fn) + "/has-locs-flag"
+					flag := enc.Call.Args[1]
+					// the Add on the location stream that writes the prefix: the first Add whose receiver
+					// differs from the receiver of the Add carrying the flag, in this function or a helper
+					var tfRecv string
+					for _, add := range callsOf(fn, "(*chunkedIntCoder).Add") {
+						for _, v := range varargValues(add.Call.Args[2]) {
+							if v == ssa.Value(enc) {
+								tfRecv = exprSig(add.Call.Args[0], 0)
+							}
+						}
+					}
+					var locAdds []*ssa.Call
+					for _, add := range callsOf(fn, "(*chunkedIntCoder).Add") {
+						if exprSig(add.Call.Args[0], 0) != tfRecv {
+							locAdds = append(locAdds, add)
+						}
+					}
+					// or a helper that is handed the location encoder
+					var helperCalls []*ssa.Call
+					if len(locAdds) == 0 {
+						for _, b := range fn.Blocks {
+							for _, ins := range b.Instrs {
+								call, ok := ins.(*ssa.Call)
+								if !ok || call.Call.StaticCallee() == nil || !c.inRoot(call.Call.StaticCallee()) || call.Call.StaticCallee().Blocks == nil {
+									continue
+								}
+								if len(callsOf(call.Call.StaticCallee(), "(*chunkedIntCoder).Add")) > 0 && fnName(call.Call.StaticCallee()) != "encodeFreqHasLocs" {
+									for _, a := range call.Call.Args {
+										if strings.HasSuffix(a.Type().String(), ".chunkedIntCoder") && exprSig(a, 0) != tfRecv {
+											helperCalls = append(helperCalls, call)
+										}
+									}
+								}
+							}
+						}
+					}
+					sites := append(append([]*ssa.Call{}, locAdds...), helperCalls...)
+					if len(sites) == 0 {
+						r.undecided(key, fnName(fn), c.pos(enc.Pos()), "cannot find where this writer adds the posting's locations")
+						continue
+					}
+					// the condition guarding the location emission: the closest dominating If whose true edge leads to it
+					bad := ""
+					for _, site := range sites {
+						found := false
+						for b := site.Block(); b != nil && !found; b = b.Idom() {
+							idom := b.Idom()
+							if idom == nil {
+								break
+							}
+							ifi, ok := idom.Instrs[len(idom.Instrs)-1].(*ssa.If)
+							if !ok || len(b.Preds) != 1 || idom.Succs[0] != b {
+								continue
+							}
+							if _, isLoopCond := ifi.Cond.(*ssa.BinOp); isLoopCond && isLoopHeader(idom) {
+								continue // a loop condition, not the guard
+							}
+							found = true
+							if exprSig(ifi.Cond, 0) != exprSig(flag, 0) {
+								bad = "the has-locations bit is " + exprSig(flag, 0) + " but the location entries at " + c.pos(site.Pos()) + " are written under " + exprSig(ifi.Cond, 0) + ": a posting whose bit and entries disagree makes the reader decode or skip the wrong bytes"
+							}
+						}
+						if !found {
+							bad = "the location entries at " + c.pos(site.Pos()) + " are written unconditionally while the has-locations bit is " + exprSig(flag, 0)
+						}
+					}
+					if bad != "" {
+						r.bad(key, fnName(fn), c.pos(enc.Pos()), bad)
+					} else {
+						r.ok(key, fnName(fn), c.pos(enc.Pos()), "bit and location entries are both governed by "+exprSig(flag, 0))
+					}
+				}
+			}
+		},
+	})
+}
